@@ -43,7 +43,7 @@ Section Top.
   Lemma rl_drop_req e H : RL H (drop_req e H).
   Proof. unfold drop_req. destruct (e_res e); [apply rl_refl | apply rl_chan_drop_tx | apply rl_chan_drop_tx | apply rl_refl]. Qed.
   Lemma rl_sub_drop q H : RL H (sub_drop q H).
-  Proof. unfold sub_drop. destruct q as [s d tg v ch|m|s tg v ch]; [|apply rl_refl|apply rl_same; reflexivity]. destruct d; [apply rl_refl | apply rl_same; reflexivity]. Qed.
+  Proof. unfold sub_drop. destruct q as [s d tg v ch|m|s tg v ch|u]; [|apply rl_refl|apply rl_same; reflexivity|apply rl_refl]. destruct d; [apply rl_refl | apply rl_same; reflexivity]. Qed.
   Lemma rl_drop : forall fuel,
     (forall fs H, RL H (drop_fs fuel fs H)) /\ (forall cid H, RL H (drop_cmd fuel cid H)).
   Proof.
